@@ -244,6 +244,11 @@ func (in *Interp) builtin(b *ssa.Builtin, args []Value, c *ssa.CallCommon) Value
 			}
 		}
 		return r
+	case "ssa:wrapnilchk":
+		if p, ok := args[0].(*PtrVal); ok && p.Obj == nil {
+			in.panicIf(st.T, "nil-deref")
+		}
+		return args[0]
 	case "close":
 		return &TupleVal{}
 	case "recover":
